@@ -254,6 +254,10 @@ def _assigned_paths(n):
         op = (strip(c[0]).get('referencedDecl') or {}).get('name')
         if op in ('operator=', 'operator+=', 'operator++', 'operator--') and len(c) > 1:
             out.append(canon(c[1]))
+            l = strip(c[1], explicit=True)
+            if l.get('kind') == 'CallExpr' and (strip(children(l)[0]).get('referencedDecl') or {}).get('name') == 'tie':
+                for a in children(l)[1:]:
+                    out.append(canon(a))
     elif k == 'CXXMemberCallExpr':
         callee = strip(children(n)[0])
         if callee.get('name') in ('reset', 'clear', 'erase', 'pop_back', 'resize', 'swap', 'emplace', 'push_back',
@@ -491,8 +495,11 @@ class Walker:
         cur = facts
         for c in children(n):
             cur = self.expr(c, cur)
-        for p in _assigned_paths(n):
+        ap = _assigned_paths(n)
+        for p in ap:
             cur = _invalidate(cur, p)
+        if ap:
+            cur = cur | {'A:' + p for p in ap}
         e = _engaging_assignment(n)
         if e:
             cur = cur | {e}
